@@ -124,6 +124,7 @@ class SimpleType:
     doc: Optional[str] = None
     file: int = 0
     kind: str = "simple"
+    lexical_style: str = "plain"       # how numeric facet values are spelled: plain, plus (+7), padded ( 7 ), zeros (007)
 
     def ultimate_builtin(self):
         t = self
